@@ -86,6 +86,8 @@ type c01Scenario struct {
 	// retry: before every window block the explorer chooses whether one upstream request of that block (the directory block
 	// itself, or the request that follows it) fails once, so that the running node applies the block a second time
 	retry bool
+	// historyLast: with history, offer the restart-or-continue choice only before the last n window blocks (0 = before every block)
+	historyLast int
 }
 
 func c01Scenarios(thorough bool) []c01Scenario {
@@ -246,6 +248,22 @@ func c01Scenarios(thorough bool) []c01Scenario {
 				b.Add(g(drive.BlockSpec{Rates: R1()}))
 			}})
 	}
+	// process history again: the same signed entry is written twice, first 13 h before its salt (outside the validity window:
+	// inert), then 80 blocks later inside the window; restart or not before each of the last three blocks
+	{
+		era := drive.EraStage(drive.StPIP10)
+		era.Name = "pip10"
+		out = append(out, c01Scenario{name: "process-history/entry-outside-then-inside-its-validity-window", era: era, history: true, historyLast: 3,
+			prefix: func(b *drive.Builder) { FundStd(b); b.Add(g(drive.BlockSpec{})) },
+			window: func(b *drive.Builder) {
+				e := kit.SignBatch(b.Chain.IDs.TX, b.Chain.EntryUnix(b.Next(), 1)+13*3600, kit.Key(KA), kit.Transfer(A, "pUSD", 9e8, AddrB))
+				b.Add(g(drive.BlockSpec{TX: []fake.Entry{e}}))
+				b.AddEmpty(78)
+				b.Add(g(drive.BlockSpec{}))
+				b.Add(g(drive.BlockSpec{TX: []fake.Entry{e}}))
+				b.Add(g(drive.BlockSpec{Rates: R2()}))
+			}})
+	}
 	// concurrent entry fetches
 	for _, k := range []int{3, 4, 13} {
 		if k == 4 && !thorough {
@@ -403,7 +421,9 @@ func c01Execute(w *World, sc c01Scenario, choices []int) *c01Exec {
 		cd.CacheRestore(w.Cache)
 		run.D = cd
 		for h := w.B.Chain.Tip() + 1; h <= run.B.Chain.Tip(); h++ {
-			if choose("restart-before-block", 2, 2) == 1 {
+			if sc.historyLast > 0 && h+uint32(sc.historyLast) <= run.B.Chain.Tip() {
+				// no choice here: the node keeps running
+			} else if choose("restart-before-block", 2, 2) == 1 {
 				run.D.Close()
 				run.D = nil
 				run.Open(nil)
